@@ -23,6 +23,9 @@ def plan(tier, seed):
         for q in [-5, 300] + pick([-300, -100, -30, 60, 100, 200], seed, 1):
             ks.append("lemire_exact_f64@q=%d,k=0,bits=12" % q)
         ks.append("lemire_exact_f32@q=30,k=0,bits=12")
+        # boundary rows of the table (first / last power of ten)
+        ks += ["lemire_exact_f64@q=308,k=0,bits=12", "lemire_exact_f64@q=-342,k=0,bits=12", "lemire_exact_f32@q=38,k=0,bits=12", "lemire_exact_f32@q=-65,k=0,bits=12",
+               "lemire_exact_f64@q=308,k=63", "lemire_exact_f64@q=308,k=61", "lemire_exact_f32@q=38,k=63", "lemire_exact_f32@q=38,k=62", "lemire_exact_f64@q=-342,k=63", "lemire_exact_f32@q=-65,k=63"]
     else:
         for q in range(0, 28):
             for k in (0, 1, 2, 3, 5, 8, 11, 20, 30, 40, 50, 63):
